@@ -321,6 +321,13 @@ func checkC13(c *Ctx) {
 		for k := 1 + i%stride; k <= o.Effects+1; k += stride {
 			jobs = append(jobs, job{r.n, r.t, r.victim, []int{k}})
 		}
+		// directed witness of the open finding: the first fsm_state -> operations window of the run
+		for k := 1; k < len(o.Classes) && stride > 1; k++ {
+			if o.Classes[k-1] == "set:vtopic_fsm_state" && o.Classes[k] == "set:vtopic_operations" {
+				jobs = append(jobs, job{r.n, r.t, r.victim, []int{k + 1}})
+				break
+			}
+		}
 		if c.Thorough() {
 			rg := c.Rng(13, uint64(i))
 			for d := 0; d < 40; d++ {
